@@ -5,20 +5,28 @@ x each bound given as constant / parameter / column expression is enumerated com
 hypothesis then samples larger bounds and non-ASCII strings.  Oracle: Python's own s[i:j] / s[i]
 (index out of range is unspecified and skipped).
 
-Other dialects (generic, PostgreSQL, MySQL): see c25 part 2 in vlib.dialects (SQL text evaluated by the
-dialect emulator); added when the emulator is available.
+Other dialects (part 2, vlib/c25_dialects.py): the same grid is translated by pony's real MySQL and Oracle providers (the
+generic SQLBuilder.STRING_SLICE / StringMixin.__getitem__ path) and by the PostgreSQL provider (its own branches) over stub
+drivers; the statement is evaluated by the dialect emulator vlib/sqlemu.py under that dialect's substr / length / greatest
+semantics (tables transcribed from the PostgreSQL 16, MariaDB 10.11 / MySQL 8.0 and Oracle manuals) and compared with Python.
 """
 import itertools
 from vlib.runner import Violation
+from vlib import c25_dialects
 
 ID = 'C25'
 LEVEL = 'exploration'
 RULE = ('grid: strings of length 0..6 x start,stop in {-8..8, omitted, None} x bound mode in {const, param, column expr} '
         '(complete), index in -8..8 x {const, param, column}; random: bounds to +-40, unicode strings to length 12. '
         'A case is one (string, start, stop, modes) tuple; non-trivial = a negative or out-of-range or None bound, '
-        'distinct by the tuple. Index out of range is unspecified (skipped, not counted).')
+        'distinct by the tuple. Index out of range is unspecified (skipped, not counted). Dialect part: the same complete grid '
+        '(no random part) once per dialect in {mysql (generic path), oracle (generic path), postgres}: a case is the tuple plus the '
+        'dialect; the statement of the real provider is evaluated by vlib/sqlemu.py; on Oracle \'\' and NULL are identified.')
 ASSUMPTIONS = ['SQLite 3.40 live through pony.orm.dbproviders.sqlite (py_string_slice UDF / substr)',
-               'Python slicing of str is the reference']
+               'Python slicing of str is the reference',
+               'no MySQL / Oracle / PostgreSQL server in the sandbox: their substr / length / greatest / CASE semantics are the '
+               'personality tables of vlib/sqlemu.py (transcribed from the manuals, trusted text; the emulator core is cross-validated '
+               'against live SQLite by C02); an unmodelled construct counts as inconclusive']
 SHARDS = {'quick': 4, 'thorough': 16}
 MIN_EVALS = {'quick': 20000, 'thorough': 100000}
 EXHAUSTIVE = {'quick': True, 'thorough': True}
@@ -179,6 +187,14 @@ def run(ctx):
                 if got != exp:
                     ctx.fail(case, '%s with s=%r index=%r returned %r, Python gives %r' % (src, s, idx, got, exp))
 
+    # part 2: the same cells on the generic (MySQL, Oracle) and PostgreSQL code paths, evaluated by the dialect emulator
+    for k, cell in enumerate(cells):
+        if k % ctx.nshards != ctx.shard:
+            continue
+        ctx.check_time()
+        for dialect in c25_dialects.DIALECTS:
+            c25_dialects.check_cell(ctx, dialect, cell, rows_one, rows_col, _pony_error)
+
     # random part: larger bounds, unicode strings, derived string expressions
     from hypothesis import strategies as st
     alphabet = st.sampled_from(list(u'abcXYZ éЖ中%_!\''))
@@ -224,6 +240,8 @@ def _pony_error(ctx, case, e):
 
 def replay(case):
     """re-execute one stored case; returns message or None"""
+    if 'dialect' in case:
+        return c25_dialects.replay(case)
     kind = case['kind']
     s = case['s'] if 's' in case else None
     if kind == 'slice':
@@ -262,13 +280,53 @@ def _is_stop_minus_one(case, message):
             and case.get('smode') in ('omit', 'const', 'param') and case.get('start') in (0, None))
 
 
-EXCLUSIONS = {'stop_minus_one': _is_stop_minus_one}
+def _pg_negative_substring_length(case, message):
+    """PostgreSQL: constant / parameter bounds of the same sign with stop < start are rendered substr(s, pos, stop - start) with
+    a negative count, which PostgreSQL refuses ("negative substring length not allowed"); Python gives ''"""
+    a, b = case.get('start'), case.get('stop')
+    return (case.get('dialect') == 'postgres' and case.get('kind') == 'slice' and a is not None and b is not None and b < a
+            and (a >= 0) == (b >= 0) and case.get('smode') in ('const', 'param') and case.get('tmode') in ('const', 'param'))
+
+
+def _generic_negative_start_beyond_length(case, message):
+    """generic path (MySQL, Oracle): a negative start is passed to substr() as is; when it reaches beyond the beginning of the
+    string substr() returns '' / NULL instead of starting at the first character"""
+    a, b = case.get('start'), case.get('stop')
+    return (case.get('dialect') in ('mysql', 'oracle') and case.get('kind') == 'slice' and a is not None and a < 0
+            and 's' in case and -a > len(case['s']) and (b is None or b < 0))
+
+
+def _generic_negative_start_nonnegative_stop(case, message):
+    """generic path (MySQL, Oracle): for start < 0 <= stop the length is computed as (stop + 1) - start, i.e. the negative offset
+    is used as if it were a 1-based position"""
+    a, b = case.get('start'), case.get('stop')
+    return (case.get('dialect') in ('mysql', 'oracle') and case.get('kind') == 'slice' and a is not None and a < 0
+            and b is not None and b >= 0)
+
+
+def _null_column_bound(case, message):
+    """every non-SQLite path: a bound given as a column / expression that is NULL for the row: a NULL start makes the whole
+    result NULL, a NULL stop is replaced by -1 and drops the last character (Python: None = omitted)"""
+    return ('dialect' in case and case.get('kind') == 'slice'
+            and ((case.get('smode') == 'col' and case.get('start') is None) or (case.get('tmode') == 'col' and case.get('stop') is None)))
+
+
+EXCLUSIONS = {'stop_minus_one': _is_stop_minus_one,
+              'pg_negative_substring_length': _pg_negative_substring_length,
+              'generic_negative_start_beyond_length': _generic_negative_start_beyond_length,
+              'generic_negative_start_nonnegative_stop': _generic_negative_start_nonnegative_stop,
+              'null_column_bound': _null_column_bound}
 
 MANIFEST = {
     'text': 'Bounded-exhaustive enumeration of string length 0..6 x every start/stop/index in -8..8/omitted/None x '
             'constant/parameter/column modes on live SQLite, plus random larger bounds and unicode strings, each compared with '
-            "Python's own slicing. Exhaustive for the stated grid, sampled beyond it; cannot establish the unbounded claim.",
-    'note': 'Trusts Python str slicing as the reference and the sandbox SQLite build; PostgreSQL/MySQL substring semantics are '
-            'checked through the dialect emulator only (no server available).',
-    'technique': 'bounded-exhaustive grid + hypothesis random search against Python slicing',
+            "Python's own slicing; the same complete grid is also translated by pony's real MySQL and Oracle providers (generic "
+            'slice arithmetic) and PostgreSQL provider over stub drivers and the emitted statement is evaluated by a dialect '
+            'emulator under that dialect\'s substr/length/greatest semantics. Exhaustive for the stated grid, sampled beyond it; '
+            'cannot establish the unbounded claim.',
+    'note': 'Trusts Python str slicing as the reference and the sandbox SQLite build; there is no MySQL/Oracle/PostgreSQL server: '
+            'their substring semantics are tables transcribed from the manuals into vlib/sqlemu.py (trusted text, the emulator core '
+            'is cross-validated against live SQLite by C02), on Oracle an empty result and NULL are identified, and the dialect '
+            'part has no random extension beyond the grid.',
+    'technique': 'bounded-exhaustive grid + hypothesis random search against Python slicing; dialect SQL evaluated by an emulator',
 }
